@@ -155,12 +155,34 @@ def cost(g):
                for e in g)
 
 
+def first_use(chk):
+    """each entry point as the FIRST use of package sm3 in a fresh process (a table or constant that is built lazily by
+    one entry point must not be missing for another)"""
+    from ..sm2gen import Gen, rb
+    g = Gen(chk.rng)
+    d = rb(chk.rng, 70)
+    g.one("first_use_sumsm3", "sm3.sumsm3", data=d)
+    k = g.scenario("first_use_new_write_sum")
+    g.add(k, "sm3.new", h="a")
+    g.add(k, "sm3.write", h="a", data=d)
+    g.add(k, "sm3.sum", h="a", **{"in": [], "spare": 0})
+    k = g.scenario("first_use_sumsm3_then_object")
+    g.add(k, "sm3.sumsm3", data=d[:5])
+    g.add(k, "sm3.new", h="a")
+    g.add(k, "sm3.write", h="a", data=d)
+    g.add(k, "sm3.sum", h="a", **{"in": [], "spare": 0})
+    g.one("first_use_sumsm3_empty", "sm3.sumsm3", data=[])
+    chk.exec_and_validate("T_SM3", g.cmds, lambda b: "first_use." + b["ev"]["op"] + "." + b["why"].split(": ")[-1].replace(" ", "_"),
+                          tag="first", fresh=True)
+
+
 def run(tier):
     chk = Check(PROP, tier)
     chk.model("MC_Vectors")
     chk.model("MC_HashObj")
     # fill level / compression count / minimal padding for EVERY length and history (Apalache, inductive),
     # at the production (64, 8) and the toy (4, 1) block and length-field sizes
+    first_use(chk)
     chk.inductive("HashLen", cinit="CInit64")
     chk.inductive("HashLen", cinit="CInit4")
     if tier == "thorough":
